@@ -430,3 +430,52 @@ func ZZ_C15_MixedDeadlines() {
 	zzAssert(len(cl.messages) == 0, "C15.mixed.request-left-pending")
 	zzReach("C15.mixed.done")
 }
+
+// the replica side of a connection's life: the real Server.Handle (reader/writer goroutine
+// plus ping watchdog) serves requests in order and returns - so that the replica process
+// closes its volume and leaves - as soon as the controller's connection ends or turns to
+// garbage; it does not return while the connection is healthy.
+func ZZ_C15_ServerHandle() {
+	a, b := zzConnPair()
+	data := &zzData{fill: 7}
+	srv := &Server{wire: zzWire(b), responses: make(chan *Message, 1024), done: make(chan struct{}, 5), data: data}
+	var herr error
+	ended := make(chan bool, 1)
+	go func() {
+		herr = srv.Handle()
+		ended <- true
+	}()
+	peer := zzWire(a)
+	n := zzConcretize(zzChoice("requests", 3))
+	for i := 0; i < n; i++ {
+		t := []uint32{TypeWrite, TypeRead, TypePing}[zzConcretize(zzChoice("type", 3))]
+		req := &Message{MagicVersion: MagicVersion, Seq: uint32(10 + i), Type: t, Offset: int64(i), Size: 1}
+		if t == TypeWrite {
+			req.Data = []byte{byte(i)}
+		}
+		zzAssert(peer.Write(req) == nil, "C15.handle.request-not-sent")
+		zzSettle()
+		resp, rerr := peer.Read()
+		zzAssert(rerr == nil && resp != nil, "C15.handle.request-not-answered")
+		if resp != nil {
+			zzAssert(resp.Seq == req.Seq, "C15.handle.reply-carries-another-sequence-number")
+		}
+	}
+	zzSettle()
+	zzAssert(len(ended) == 0, "C15.handle.server-gave-up-on-a-healthy-connection")
+	switch zzConcretize(zzChoice("end", 3)) {
+	case 0:
+		close(a.out.ch) // the controller closes the connection
+	case 1:
+		a.out.broken = true
+		close(a.out.ch) // connection reset
+	default:
+		a.Write([]byte{0xde, 0xad, 0xbe, 0xef, 1, 2, 3, 4, 5, 6, 7, 8, 9, 10, 11, 12, 13, 14, 15, 16, 17, 18, 19, 20, 21, 22, 23, 24, 25, 26}) // garbage
+	}
+	zzSettleMs(500)
+	zzAssert(len(ended) == 1, "C15.handle.server-keeps-serving-a-dead-connection")
+	if len(ended) == 1 {
+		zzAssert(herr != nil, "C15.handle.connection-loss-not-reported-to-the-replica-process")
+	}
+	zzReach("C15.handle.done")
+}
